@@ -428,6 +428,21 @@ impl Engine for C12 {
                             let _ = std::fs::remove_file(&link);
                         }
                     }
+                    // fourth write: where one of the files is to be created there is a DIRECTORY of that name (an unpacked
+                    // archive, a tool that made `Foo.mapping/`): creating the file fails (EISDIR) and the writer must say so
+                    if !per_file.is_empty() && dp.create_order % 3 == 1 {
+                        let victim = &per_file[(dp.create_order as usize / 3) % per_file.len()].0;
+                        let w4 = d.join("w4");
+                        if std::fs::create_dir_all(w4.join(format!("{victim}.mapping"))).is_ok() {
+                            st.fired(&["dir_directory_in_the_way"]);
+                            st.tier("T2");
+                            match no_panic(|| quill::enigma_dir::write(&qa, &w4)) {
+                                Err(pm) => out.push(Violation::new("T2", "panic", format!("dir-write:{}", panic_path(&pm)), pm)),
+                                Ok(Err(_)) => st.probe("dir_write_err_on_directory_in_the_way"),
+                                Ok(Ok(())) => out.push(Violation::new("T2", "writer-ok-with-incomplete-sink", "dir-write.directory-in-the-way", format!("Ok although {victim}.mapping is a directory and cannot have been written"))),
+                            }
+                        }
+                    }
                     // read back what was written
                     match no_panic(|| read_dir_real(&w1, m)) {
                         Err(pm) => out.push(Violation::new("T0", "panic", format!("dir-read:{}", panic_path(&pm)), pm)),
